@@ -90,6 +90,14 @@ def check_l5_get_tau(fi: FuncInfo, rule: str) -> Tuple[bool, List[Ob]]:
     ren[ps[2]], ren[ps[3]] = ps[3], ps[2]
     bld = IRBuilder()
     items = bld.build(fi.node.body)
+    # `if c: A else: B` followed by a common tail that returns is the same two-way branch with the tail in both arms
+    for k_, it in enumerate(items):
+        if it[0] == 'if' and len(it[1]) == 1 and it[2] and not any(x[0] == 'return' for x in it[1][0][1] + it[2]):
+            tail = items[k_ + 1:]
+            if tail and tail[-1][0] == 'return' and all(x[0] in ('simple', 'return') for x in tail):
+                cond_, body_, node_ = it[1][0]
+                items = items[:k_] + [('if', [(cond_, list(body_) + tail, node_)], list(it[2]) + tail, it[-1])]
+                break
     ifs = [it for it in items if it[0] == 'if' and len(it[1]) == 1 and it[2] and
            any(x[0] == 'return' for x in it[1][0][1]) and any(x[0] == 'return' for x in it[2])]
     fn = _fn(fi)
